@@ -167,6 +167,7 @@ def analyse_walk(program, rep, f, world):
     exits = w.run(f, world)
     rep.count('paths', len(exits))
     viol = {}       # rule -> (node, why, path)
+    unsure_once = []
 
     # an opt-in flag (a parameter whose default is False / None): the walk
     # is complete for every call that does not set it
@@ -391,7 +392,17 @@ def analyse_walk(program, rep, f, world):
                         if alt is not None:
                             flag('once', e.node, alt, tr)
                             continue
-                        if has_effect and not (visited_false and visited_added):
+                        graphy = [c_ for c_ in tr if c_.kind == 'cond' and (
+                            '__bases__' in c_.sym.text
+                            or '__mro__' in c_.sym.text)]
+                        if has_effect and not (visited_false and visited_added) \
+                                and graphy:
+                            # the visited test is applied to some types only,
+                            # chosen by the shape of the class graph: that the
+                            # others are reached once is an argument about
+                            # that graph, not decided here
+                            unsure_once.append(graphy[0])
+                        elif has_effect and not (visited_false and visited_added):
                             flag('once', e.node, 'the per-visit effect of the '
                                  'walk (yielding the components of the popped '
                                  'type) is not preceded, in the same '
@@ -446,6 +457,14 @@ def analyse_walk(program, rep, f, world):
         rep.inconclusive('C06.exact-first', site, loop.test,
                          'the first popped element of the work list could not '
                          'be determined', line=loop.lineno)
+    if unsure_once and 'once' not in viol:
+        rep.inconclusive('C06.once', site, unsure_once[0].node,
+                         'the visited-set test is applied only when '
+                         f'`{unsure_once[0].sym.text}`: that the other types '
+                         'are examined once rests on the shape of the class '
+                         'graph (a type with one base is pushed by that base '
+                         'only), which this rule does not model',
+                         line=getattr(unsure_once[0].node, 'lineno', None))
     for rule in ('exact-first', 'match', 'closure', 'once', 'single'):
         if rule in viol:
             node, why, path = viol[rule]
